@@ -71,7 +71,7 @@ func descends(anc []uint64, newN, oldN int) bool { return anc[newN]&(1<<uint(old
 // one ref of a fetch / push operation
 type c10ref struct {
 	rel   c10rel
-	kind  int  // 0 head->remote-tracking (fetch) / head->head (push); 1 tag; 2 custom ref; 3 head->head
+	kind  int  // 0 head->remote-tracking (fetch) / head->head (push); 1 tag; 2 custom ref; 3 head->head; 4 head->tag
 	force bool // '+' on its refspec
 	name  string
 }
@@ -84,6 +84,8 @@ func (r *c10ref) srcDst(op string) (string, string) {
 		return "refs/custom/" + r.name, "refs/custom/" + r.name
 	case 3:
 		return "refs/heads/" + r.name, "refs/heads/" + r.name
+	case 4: // a branch stored as a tag at the destination
+		return "refs/heads/" + r.name, "refs/tags/" + r.name
 	}
 	if op == "push" {
 		return "refs/heads/" + r.name, "refs/heads/" + r.name
@@ -95,7 +97,7 @@ func c10FetchPush(c *mc.Ctx) {
 	op := []string{"fetch", "push"}[c.Choose(2)]
 	// the first ref (sorts first) is enumerated completely; the second one (sorts last) comes from a
 	// short list that includes refused updates, so that one ref's force or rejection can leak to the other
-	r1 := &c10ref{rel: c10rels[c.Choose(len(c10rels))], kind: c.Choose(4), force: c.Choose(2) == 1, name: "a1"}
+	r1 := &c10ref{rel: c10rels[c.Choose(len(c10rels))], kind: c.Choose(5), force: c.Choose(2) == 1, name: "a1"}
 	second := []c10ref{
 		{rel: c10rel{"new-ref", -1, 1}, kind: 0},
 		{rel: c10rel{"diverged", 1, 2}, kind: 0},
@@ -202,7 +204,7 @@ func c10FetchPush(c *mc.Ctx) {
 			gotNode = indexOfSum(ssums, got)
 		}
 		forced := r.force || globalForce
-		isTag := r.kind == 1
+		isTag := r.kind == 1 || r.kind == 4 // the destination is a tag
 		legal := r.rel.old < 0 || r.rel.old == r.rel.new || (!isTag && descends(anc, r.rel.new, r.rel.old))
 		if legal || forced {
 			if gotNode != r.rel.new {
@@ -426,8 +428,8 @@ func init() {
 	register(&mc.Check{
 		ID:    "C10",
 		Level: "exploration",
-		Rule: "fetch and push through the real command tree against the reference server, each operation carrying TWO refs: the first (sorted first) with every history relation between its old and offered value in {new ref, equal, ahead, far ahead, ahead through a merge that also reaches the grandparent directly, behind, diverged, unrelated} x ref kind {head->remote-tracking / head->head, tag, custom ref, head->head} x '+' on its refspec; " +
-			"the second (sorted last) from {legal new ref, unforced diverged, '+' diverged, unforced moved tag, fast-forward}; (deviations) global --force, commit-time order {topological, reversed, equal}. merge and pull: relation in {equal, ahead, far ahead, ahead-with-shortcut, behind, diverged} x {default, --no-ff, --ff-only} x {wrgl merge, wrgl pull}, wrgl merge also with --commit-csv <resolved file>, with --no-gui and with the branch named through a revision expression (main^) (thorough: also commit-time orders). All 640+72 combinations are run on an on-disk repository. " +
+		Rule: "fetch and push through the real command tree against the reference server, each operation carrying TWO refs: the first (sorted first) with every history relation between its old and offered value in {new ref, equal, ahead, far ahead, ahead through a merge that also reaches the grandparent directly, behind, diverged, unrelated} x ref kind {head->remote-tracking / head->head, tag, custom ref, head->head, head->tag} x '+' on its refspec; " +
+			"the second (sorted last) from {legal new ref, unforced diverged, '+' diverged, unforced moved tag, fast-forward}; (deviations) global --force, commit-time order {topological, reversed, equal}. merge and pull: relation in {equal, ahead, far ahead, ahead-with-shortcut, behind, diverged} x {default, --no-ff, --ff-only} x {wrgl merge, wrgl pull}, wrgl merge also with --commit-csv <resolved file>, with --no-gui and with the branch named through a revision expression (main^) (thorough: also commit-time orders). All 800+ combinations are run on an on-disk repository. " +
 			"Oracle (ref-transition model): an unforced update lands only if the new value descends from the old one and never replaces an existing tag; a refused update leaves the ref unchanged and is reported; every ref is judged on its own relation and its own force flag (one ref's '+' or rejection never changes another ref's outcome); a fast-forward merge moves the branch exactly to the other commit; --ff-only refuses diverged histories; " +
 			"every ref that changed has a newest reflog entry with the true old and new values and resolves to a stored commit. non-trivial / distinct = every combination",
 		Assumptions: []string{"for push the reference server applies exactly the updates it is asked to apply, so the check is on what the client requests and reports", "history relations are realised on a fixed 6-commit universe"},
